@@ -86,6 +86,15 @@ type sysRemote struct {
 	// fifth generation
 	Mixed         func(ctx context.Context, tag int, f cbI, n int, g cbI, s string) (string, error) // function arguments between plain ones
 	EchoSession   func(ctx context.Context, tag int, s Session) (Session, error)                    // a type whose pointer has its own JSON encoding
+	// sixth generation
+	Spawn         func(ctx context.Context, tag int) (int, error)                 // starts a call back to the peer on a goroutine of its own and returns at once
+	EchoAny       func(ctx context.Context, tag int, v any) (any, error)          // an interface-typed parameter (nil is a legal value)
+	FailTypedNil  func(ctx context.Context, tag int) error                        // returns a nil POINTER of an error type: a non-nil error whose Error works on nil
+	FailFormatted func(ctx context.Context, tag int, msg string) error            // an error type that also implements fmt.Formatter (prints something else)
+	KeepWait      func(ctx context.Context, tag int, cb cbI) (int, error)         // keeps the callable and stays in flight until its gate opens
+	RelayCb       func(ctx context.Context, tag int, kept int) (int, error)       // invokes the callable kept under `kept` (another link's) with THIS request's context
+	EnumPanic     func(ctx context.Context, tag int) error                        // enumerates the remotes and panics inside the enumeration callback
+	Groups        func(ctx context.Context, tag int, cb cbG) (string, error)      // a callable whose parameter is a list of lists; one inner list is nil
 	PanicGate     func(ctx context.Context, tag int) error                                          // waits for its gate, then panics with an error value of a slice type
 	Sub           struct {
 		Deep struct {
@@ -103,6 +112,7 @@ type Ratio float64
 type Small int8
 type cbN = func(ctx context.Context, c Count, n Name, r Ratio, s Small) (Count, error)
 type cbC = func(ctx context.Context, c Count, s Small) (Count, error)
+type cbG = func(ctx context.Context, groups [][]string) (string, error)
 type cb0 = func(ctx context.Context) (int, error)
 type cbS = func(ctx context.Context, page int) ([]string, error)
 
@@ -233,6 +243,7 @@ func canon(v any) string {
 }
 
 type sysLocal struct {
+	forRemotes func(func(string, sysRemote) error) error // the node's own ForRemotes (set after the registry exists)
 	Svc  sysGreeter // a nested service held through an interface-typed field
 	Kv   sysKV      // ... and one whose type is a named map type with methods
 	w    *sysWorld
@@ -445,6 +456,88 @@ type sysKV map[string]int
 
 func (m sysKV) Size(ctx context.Context, tag int) (int, error) { return len(m) + tag, nil }
 
+// Spawn: the handler starts a call back to its peer on a goroutine of its own (an event subscription does
+// that) and returns at once: its response does not wait for that call
+func (l *sysLocal) Spawn(ctx context.Context, tag int) (int, error) {
+	l.inv(ctx, "Spawn", tag, nil)
+	p, ok := l.peer(ctx)
+	if !ok {
+		return 0, errors.New("no peer")
+	}
+	go func() {
+		v, err := p.Gate(ctx, tag+1)
+		l.w.log(SysEvent{Node: l.node, Kind: "ret", Method: "SpawnedGate", Tag: tag + 1, Data: fmt.Sprint(v), Err: errText(err)})
+	}()
+	// return only once the spawned call is really in flight (its handler on the peer has started and is stalled)
+	waitUntil(func() bool { return hasInv(l.w, "Gate", tag+1) }, time.Second)
+	return tag, nil
+}
+func (l *sysLocal) EchoAny(ctx context.Context, tag int, v any) (any, error) {
+	l.inv(ctx, "EchoAny", tag, v)
+	return v, nil
+}
+
+// ptrErr: Error works on a nil receiver; a nil *ptrErr stored in an error is a NON-nil error
+type ptrErr struct{ msg string }
+
+func (e *ptrErr) Error() string {
+	if e == nil {
+		return "typed nil error"
+	}
+	return e.msg
+}
+func (l *sysLocal) FailTypedNil(ctx context.Context, tag int) error {
+	l.inv(ctx, "FailTypedNil", tag, nil)
+	var e *ptrErr
+	return e
+}
+
+// fmtErr prints differently through fmt than its Error method says; the message that crosses the link is Error()
+type fmtErr struct{ msg string }
+
+func (e fmtErr) Error() string { return e.msg }
+func (e fmtErr) Format(f fmt.State, verb rune) {
+	fmt.Fprintf(f, "fmtErr{%q}", e.msg)
+}
+func (l *sysLocal) FailFormatted(ctx context.Context, tag int, msg string) error {
+	l.inv(ctx, "FailFormatted", tag, msg)
+	return fmtErr{msg}
+}
+
+// EnumPanic: an application handler enumerates the remotes and its callback panics (panics of handlers are
+// contained by panrpc; whatever the enumeration held must be released)
+func (l *sysLocal) EnumPanic(ctx context.Context, tag int) error {
+	l.inv(ctx, "EnumPanic", tag, nil)
+	if l.forRemotes == nil {
+		return errors.New("no enumeration")
+	}
+	return l.forRemotes(func(id string, r sysRemote) error { panic(errors.New("panic inside the enumeration callback")) })
+}
+func (l *sysLocal) KeepWait(ctx context.Context, tag int, cb cbI) (int, error) {
+	l.inv(ctx, "KeepWait", tag, nil)
+	l.w.mu.Lock()
+	l.w.kept[tag] = cb
+	l.w.mu.Unlock()
+	select {
+	case <-l.w.gate(tag):
+	case <-time.After(20 * time.Second):
+		return -1, errors.New("gate timeout")
+	}
+	return tag, nil
+}
+func (l *sysLocal) RelayCb(ctx context.Context, tag int, kept int) (int, error) {
+	l.inv(ctx, "RelayCb", tag, kept)
+	l.w.mu.Lock()
+	cb := l.w.kept[kept]
+	l.w.mu.Unlock()
+	if cb == nil {
+		return -1, errors.New("nothing kept")
+	}
+	v, err := cb(ctx, tag)
+	l.w.log(SysEvent{Node: l.node, Kind: "ret", Method: "RelayCb", Tag: tag, Data: fmt.Sprint(v), Err: errText(err)})
+	return v, err
+}
+
 // an error type whose values cannot be compared with == (a slice): legal, e.g. a list of field errors
 type listErr []error
 
@@ -560,6 +653,13 @@ func (l *sysLocal) IterCount(ctx context.Context, tag int, cb cbC) (string, erro
 	}
 	return strings.Join(out, ";"), nil
 }
+// Groups hands a list of lists with a nil element (written as null by every serializer) to the callable
+func (l *sysLocal) Groups(ctx context.Context, tag int, cb cbG) (string, error) {
+	l.inv(ctx, "Groups", tag, nil)
+	v, err := cb(ctx, [][]string{{"alice"}, nil, {"bob", "carol"}, {}})
+	return v, err
+}
+
 // Relay calls another peer (chosen by the workload) with the context of the request being handled
 func (l *sysLocal) Relay(ctx context.Context, tag int) (int, error) {
 	l.inv(ctx, "Relay", tag, nil)
@@ -710,6 +810,8 @@ type frameQ[T any] struct {
 	hold   bool
 	closed error
 	seen   []T // every frame ever put (capture)
+	reuse  bool   // hand out views of one receive buffer (valid until the next Get)
+	buf    []byte
 }
 
 func newFrameQ[T any]() *frameQ[T] {
@@ -743,9 +845,43 @@ func (q *frameQ[T]) Get() (T, error) {
 	if len(q.ready) > 0 {
 		f := q.ready[0]
 		q.ready = q.ready[1:]
+		if q.reuse {
+			return q.view(f), nil
+		}
 		return f, nil
 	}
 	return *new(T), q.closed
+}
+
+// view copies a byte-slice payload into the queue's one receive buffer and returns a slice of it: like a
+// transport that reads every frame into the same buffer, the frame is only valid until the next Get
+func (q *frameQ[T]) view(f T) T {
+	var b []byte
+	switch x := any(f).(type) {
+	case json.RawMessage:
+		b = x
+	case cbor.RawMessage:
+		b = x
+	case []byte:
+		b = x
+	default:
+		return f
+	}
+	if q.buf == nil {
+		q.buf = make([]byte, 1<<20)
+	}
+	if len(b) > len(q.buf) {
+		return f
+	}
+	n := copy(q.buf, b)
+	switch any(f).(type) {
+	case json.RawMessage:
+		return any(json.RawMessage(q.buf[:n])).(T)
+	case cbor.RawMessage:
+		return any(cbor.RawMessage(q.buf[:n])).(T)
+	default:
+		return any(q.buf[:n]).(T)
+	}
 }
 
 func (q *frameQ[T]) Close(err error) {
@@ -814,6 +950,38 @@ func jsonRawCodec() Codec[json.RawMessage] {
 			return func(v *rpc.Message[json.RawMessage]) error { return d.Decode(v) }
 		},
 		Generic: func(d json.RawMessage) (any, error) { var x any; err := json.Unmarshal(d, &x); return x, err },
+	}
+}
+
+// ptrRaw: an application-defined raw payload type whose JSON methods have POINTER receivers (like
+// json.RawMessage before Go 1.8): it is encoded verbatim only where the value is addressable
+type ptrRaw []byte
+
+func (p *ptrRaw) MarshalJSON() ([]byte, error) {
+	if p == nil || *p == nil {
+		return []byte("null"), nil
+	}
+	return *p, nil
+}
+func (p *ptrRaw) UnmarshalJSON(b []byte) error {
+	*p = append((*p)[:0], b...)
+	return nil
+}
+
+func jsonPtrRawCodec() Codec[ptrRaw] {
+	return Codec[ptrRaw]{
+		Name:      "json-ptrraw",
+		Marshal:   func(v any) (ptrRaw, error) { b, err := json.Marshal(v); return ptrRaw(b), err },
+		Unmarshal: func(d ptrRaw, v any) error { return json.Unmarshal([]byte(d), v) },
+		NewEncoder: func(w io.Writer) func(v rpc.Message[ptrRaw]) error {
+			e := json.NewEncoder(w)
+			return func(v rpc.Message[ptrRaw]) error { return e.Encode(&v) }
+		},
+		NewDecoder: func(r io.Reader) func(v *rpc.Message[ptrRaw]) error {
+			d := json.NewDecoder(r)
+			return func(v *rpc.Message[ptrRaw]) error { return d.Decode(v) }
+		},
+		Generic: func(d ptrRaw) (any, error) { var x any; err := json.Unmarshal([]byte(d), &x); return x, err },
 	}
 }
 
@@ -986,6 +1154,7 @@ func NewSysNode[T any](w *sysWorld, name string) *SysNode[T] {
 			probe("disconnect", id)
 		},
 	})
+	local.forRemotes = n.Reg.ForRemotes
 	w.mu.Lock()
 	w.peers[name] = func(id string) (sysRemote, bool) {
 		var r sysRemote
@@ -1034,6 +1203,12 @@ func ConnectCtx[T any](parentA context.Context, w *sysWorld, a, b *SysNode[T], c
 	}
 	if !stream {
 		l.ABreq, l.ABres, l.BAreq, l.BAres = newFrameQ[T](), newFrameQ[T](), newFrameQ[T](), newFrameQ[T]()
+		if seed%2 == 0 {
+			// every other message link reads all its frames into one receive buffer per direction
+			for _, q := range []*frameQ[T]{l.ABreq, l.ABres, l.BAreq, l.BAres} {
+				q.reuse = true
+			}
+		}
 		go func() {
 			l.ErrA <- a.Reg.LinkMessage(ctxA, l.ABreq.Put, l.ABres.Put, l.BAreq.Get, l.BAres.Get, c.Marshal, c.Unmarshal, hooks(a.Name))
 		}()
